@@ -21,8 +21,8 @@ from vt.oracles import framecmp
 
 ID = 'C05'
 TIERS = {
-    'quick': dict(shards=16, cases=260, watchdog_s=900),
-    'thorough': dict(shards=16, cases=12500, watchdog_s=7000),
+    'quick': dict(shards=16, cases=900, watchdog_s=900),
+    'thorough': dict(shards=16, cases=25000, watchdog_s=7000),
 }
 KINDS = ['int64', 'int32', 'float64', 'float32', 'bool', 'str_obj', 'str_pd3', 'string_ext', 'cat', 'dt_ns', 'dt_us',
          'Int64', 'boolean', 'Float64', 'dateobj']
